@@ -2,7 +2,6 @@ package util
 
 import (
 	"strconv"
-	"strings"
 	"time"
 
 	"github.com/pkg/errors"
@@ -21,13 +20,8 @@ func ParseRFC3339(s string) (time.Time, error) {
 
 // RFC3339 formats time.Time to RFC3339Nano string.
 func RFC3339(t time.Time) string {
-	s := t.Format("2006-01-02T15:04:05.999999999")
-
-	if len(s) < 29 { //nolint:mnd //...
-		s += strings.Repeat("0", 29-len(s))
-	}
-
-	return s + t.Format("Z07:00")
+	// NOTE fixed 9 fraction digits, also for whole seconds
+	return t.Format("2006-01-02T15:04:05.000000000Z07:00")
 }
 
 // NormalizeTime clear the nanoseconds part from Time and make time to UTC.
